@@ -40,6 +40,7 @@ type CorDef[T any] struct {
 
 	opCh     chan *CorOp[T]
 	resultCh chan T
+	doneCh   chan struct{}
 
 	effect func()
 }
@@ -55,6 +56,7 @@ func CorNewGenerics[T any](effect func()) *CorDef[T] {
 		effect:    effect,
 		opCh:      make(chan *CorOp[T], 5),
 		resultCh:  make(chan T, 5),
+		doneCh:    make(chan struct{}),
 		isStarted: AtomBool{flag: 0},
 	}
 	return cor
@@ -160,8 +162,12 @@ func (corSelf *CorDef[T]) receive(cor *CorDef[T], in T) bool {
 	corSelf.doCloseSafe(func() {
 		if corSelf.opCh != nil && !corSelf.IsDone() {
 			// fmt.Println(corSelf, "Wait for", "receive", cor, in)
-			corSelf.opCh <- &CorOp[T]{cor: cor, val: in}
-			received = true
+			// The send waits (holding closedM) while opCh is full: give up when the Cor completes meanwhile
+			select {
+			case corSelf.opCh <- &CorOp[T]{cor: cor, val: in}:
+				received = true
+			case <-corSelf.doneCh:
+			}
 			// fmt.Println(corSelf, "Wait for", "receive", "done")
 		}
 	})
@@ -197,6 +203,10 @@ func (corSelf *CorDef[T]) IsStarted() bool {
 
 func (corSelf *CorDef[T]) close() {
 	corSelf.isClosed.Set(true)
+	if corSelf.doneCh != nil {
+		// Release the requests still waiting for room in opCh (their senders hold closedM)
+		close(corSelf.doneCh)
+	}
 
 	corSelf.closedM.Lock()
 	if corSelf.resultCh != nil {
